@@ -85,3 +85,17 @@ pub(crate) fn gate_release(index: u64) -> bool {
     drop(g);
     sender.send(()).is_ok()
 }
+
+/// Log indexes that have a task parked in the gate right now.
+#[allow(dead_code)]
+pub(crate) fn gate_parked() -> Vec<u64> {
+    let g = gate().lock().expect("verif gate");
+    let mut parked: Vec<u64> = g
+        .parked
+        .iter()
+        .filter(|(_, senders)| !senders.is_empty())
+        .map(|(index, _)| *index)
+        .collect();
+    parked.sort();
+    parked
+}
